@@ -7,13 +7,18 @@ Line-protocol front end of the asynchronous-dispatcher model (engine `asyncd`).
 asyncd begin <stages> <tl>          e.g. [[[0],[1,2]],[[3]]] [4,5]     -> ok
 asyncd call <op>                                                      -> ok | reject ..
 asyncd ret <op> <0|1>                                                 -> ok | reject ..
-asyncd ev <F|D> <tag> <c|w> <dispatch-no>                             -> ok | reject ..
+asyncd ev <F|D|P> <tag> <c|w> <dispatch-no>                           -> ok | reject ..
+asyncd unwound <op>                                                   -> ok | reject ..
+asyncd hook <tag> <c|w>                                               -> ok | reject ..
 asyncd quiet                                                          -> ok | reject ..
+asyncd gone                                                           -> ok | reject ..
 asyncd end                                                            -> accept | reject ..
 ```
 `op` ∈ dispatch wait wait_without_tl running world world_mut setup res mut_res. `quiet`: the
 harness, between two operations and without calling the dispatcher, has seen the completion
-signal of the systems themselves (every `run` that was entered has returned). The stages are the
+signal of the systems themselves (every `run` that was entered has returned). `ev P`: the
+system was unwound by a panic; `unwound op`: the call ended by unwinding; `hook`: `setup` called
+the system's setup hook; `gone`: the harness has seen the pool's panic handler run. The stages are the
 *model's* layout for the registration sequence (the harness obtains it with `layout`); the job
 task is `stagesTask` of it. Every request is one `Async.feed` step of the acceptor whose
 soundness is `Async.acceptsLog_sound`.
@@ -76,10 +81,13 @@ def parseOp : String → Option AOp
 
 def showCtl (c : Ctl) : String :=
   let d := match c.data with | .inner => "inner" | .rx => "rx"
-  let j := match c.job with | .idle => "idle" | .running r => if r.nullable then "running(done)" else "running" | .sent => "sent"
+  let j := match c.job with
+    | .idle => "idle" | .running r => if r.nullable then "running(done)" else "running" | .sent => "sent"
+    | .failed _ ps g => s!"failed(panicked={ps},sender-dropped={g})"
   let k := match c.caller with
     | .ready => "ready" | .called _ => "called" | .holding _ => "holding" | .spawned => "spawned"
-    | .inTl _ => "in-tl" | .polled v => s!"polled({v})"
+    | .inTl _ => "in-tl" | .polled v => s!"polled({v})" | .inSetup rest => s!"in-setup(hooks-left={rest})"
+    | .tlFailed => "tl-panicked"
   s!"data={d} job={j} caller={k} dispatches={c.nDisp}"
 
 def feedEv (st : St) (o : AEv) (what : String) : St × String :=
@@ -112,9 +120,25 @@ def step (st : St) (ws : List String) : St × String :=
       | some e, some t =>
         feedEv st (if st.plan.tl.contains tag then .tl t e else .sys t d e) s!"ev {k} {tag} {th} {d}"
       | some _, none => (st, s!"reject ev {k} {tag} {th} {d} [thread is neither the caller nor a pool worker]")
+      | none, some t =>
+        if k == "P" then
+          feedEv st (if st.plan.tl.contains tag then .tlP t tag else .sysP t d tag) s!"ev {k} {tag} {th} {d}"
+        else (st, "bad-op")
       | _, _ => (st, "bad-op")
     | _, _ => (st, "bad-op")
+  | ["unwound", op] =>
+    match parseOp op with
+    | some op' => feedEv st (.unwound op') s!"unwound {op}"
+    | none => (st, "bad-op")
+  | ["hook", tag, th] =>
+    match tag.toNat? with
+    | some tag =>
+      if th == "c" then feedEv st (.hook .caller tag) s!"hook {tag} {th}"
+      else if th == "w" then feedEv st (.hook .worker tag) s!"hook {tag} {th}"
+      else (st, s!"reject hook {tag} {th} [thread is neither the caller nor a pool worker]")
+    | none => (st, "bad-op")
   | ["quiet"] => feedEv st .quiet "quiet"
+  | ["gone"] => feedEv st .gone "gone"
   | ["end"] =>
     match st.ctl with
     | some c => ({ st with ctl := none }, if c.final then "accept" else s!"reject incomplete [{showCtl c}]")
